@@ -163,3 +163,6 @@ pub fn clock_id(v: u64) -> ClockId {
 }
 pub const POLL_WINDOW_SECS: u64 = POLL_WINDOW.as_secs();
 pub const STARTUP_TRIES: usize = STARTUP_TRIES_THRESHOLD;
+
+// ---- C33 (np_nts_h): name the (public, but not re-exported) used-source enum from outside.
+pub use super::SourceSnapshot;
